@@ -222,10 +222,6 @@ Definition final (H : heap) (c : tree scalar) (q : list qitem) (p : path) : opti
   | None => lookup c p
   end.
 
-Definition no_mixed (pre p : gpath) : Prop :=
-  (g_elem pre <> [] -> g_elem p = [] -> g_element p = []) /\
-  (g_elem p <> [] -> g_elem pre = [] -> g_element pre = []).
-
 Lemma last_conc_app H p q1 q2 :
   last_conc H p (q1 ++ q2) =
   match last_conc H p q2 with Some j => Some j | None => last_conc H p q1 end.
@@ -338,13 +334,12 @@ Record rec_ok (r : leafrec) : Prop := {
   ro_origin : g_origin (lr_prefix r) <> "";
   ro_meta : g_origin (lr_prefix r) <> meta_root;
   ro_key : Keys (idx r);
-  ro_val : Vals (lr_val r);
-  ro_mixed : no_mixed (lr_prefix r) (lr_path r)
+  ro_val : Vals (lr_val r)
 }.
 
 Lemma full_path_ok r : rec_ok r -> full_path r = name :: idx r.
 Proof.
-  intros [Ht Ho _ _ _ _]. unfold full_path, idx, strs_of. unfold to_strings_gp at 1.
+  intros [Ht Ho _ _ _]. unfold full_path, idx, strs_of. unfold to_strings_gp at 1.
   rewrite Ht, (str_nonempty_true _ name_ne), (str_nonempty_true _ Ho). cbn.
   reflexivity.
 Qed.
@@ -690,17 +685,29 @@ Qed.
 
 (** ** deletes *)
 
+Lemma flat_map_names (l : list string) :
+  flat_map (fun e => e_name e :: key_vals (e_keys e)) (map (fun n => {| e_name := n; e_keys := [] |}) l) = l.
+Proof. induction l as [|a l IH]; cbn; [reflexivity|]. now rewrite IH. Qed.
+
 Lemma del_full_to_delete old ts : rec_ok old -> del_full (to_delete old ts) = name :: idx old.
 Proof.
-  intros [Ht Ho _ _ _ [M1 M2]]. unfold del_full, to_delete. cbn [d_target d_origin d_path].
+  intros [Ht Ho _ _ _]. unfold del_full, to_delete, defect_C01_3, to_delete_gen. cbn [d_target d_origin d_path].
   rewrite Ht, (str_nonempty_true _ name_ne).
   destruct (String.eqb_spec (g_origin (lr_prefix old)) "") as [E|_]; [contradiction|]. cbn [andb].
-  rewrite (str_nonempty_true _ Ho). cbn [app]. unfold idx, strs_of, to_strings_gp. f_equal. f_equal.
+  rewrite (str_nonempty_true _ Ho). cbn [app]. unfold idx, strs_of, to_strings_gp, path_elems. f_equal. f_equal.
   destruct (g_elem (lr_prefix old)) as [|e1 es1] eqn:E1; destruct (g_elem (lr_path old)) as [|e2 es2] eqn:E2;
     cbn [g_elem g_element app].
   - reflexivity.
-  - rewrite M2 by congruence. reflexivity.
-  - rewrite M1 by congruence. now rewrite app_nil_r, app_nil_r.
+  - destruct (g_element (lr_prefix old)) as [|a l] eqn:E3; [reflexivity|].
+    change (map (fun n => {| e_name := n; e_keys := [] |}) (a :: l) ++ e2 :: es2)
+      with (map (fun n => {| e_name := n; e_keys := [] |}) (a :: l) ++ (e2 :: es2)).
+    rewrite <- E3. destruct (map _ (g_element (lr_prefix old)) ++ e2 :: es2) eqn:E4.
+    + apply app_eq_nil in E4 as [_ E4]. discriminate.
+    + rewrite <- E4, flat_map_app, flat_map_names. reflexivity.
+  - destruct (g_element (lr_path old)) as [|a l] eqn:E3; [now rewrite !app_nil_r|].
+    rewrite <- E3. change (e1 :: es1 ++ map (fun n => {| e_name := n; e_keys := [] |}) (g_element (lr_path old)))
+      with ((e1 :: es1) ++ map (fun n => {| e_name := n; e_keys := [] |}) (g_element (lr_path old))).
+    now rewrite flat_map_app, flat_map_names.
   - change (e1 :: es1 ++ e2 :: es2) with ((e1 :: es1) ++ e2 :: es2). now rewrite flat_map_app.
 Qed.
 
@@ -1779,7 +1786,7 @@ Proof.
     { induction l as [|[k0 g0] l IH]; intros Hl; cbn [fold_left]; [reflexivity|].
       destruct (Wo _ _ (Hl (k0, g0) (or_introl eq_refl))) as (_ & old & Hold & Hoo). cbn [snd fst] in *. rewrite Hold.
       assert (E : feed_del (Some sb) (to_delete old ts) = Some sb).
-      { cbn [feed_del]. unfold to_delete at 1 2 3. cbn [d_target d_origin d_path].
+      { cbn [feed_del]. unfold to_delete, to_delete_gen. cbn [d_target d_origin d_path].
         unfold owner in Hoo. rewrite Hoo, (str_nonempty_true _ Hn). cbn [app]. now rewrite Hmm. }
       rewrite E. apply IH. intros; apply Hl; now right. }
     apply G. intros [k0 g0] Hin. apply Hrem in Hin. cbn. apply Hin.
@@ -2285,8 +2292,7 @@ Proof.
       unfold s1. repeat (apply Forall_cons; [|]); try apply Forall_nil; try exact I; apply Hi;
         try (cbn; discriminate); intros u Hu; cbn in Hu;
         repeat (destruct Hu as [<-|Hu];
-                [constructor; [reflexivity|cbn; discriminate|cbn; discriminate|cbn; auto 10|cbn; auto 10
-                              |split; cbn; congruence]|]); contradiction.
+                [constructor; [reflexivity|cbn; discriminate|cbn; discriminate|cbn; auto 10|cbn; auto 10]|]); contradiction.
     + unfold s1. repeat (apply Forall_cons; [|]); try apply Forall_nil; try exact I;
         cbn; try discriminate; intros _; split; intros x Hx; cbn in Hx;
         repeat (destruct Hx as [<-|Hx]; [reflexivity|]); contradiction.
@@ -2335,21 +2341,6 @@ Proof.
   apply Permutation_length_1 in Hp. discriminate.
 Qed.
 
-(** prefix in elem, path in element encoding: the delete of such a leaf takes
-    its siblings away from the client (corpus/C01/kf_mixed_encoding_delete.json) *)
-Definition gel (l : list string) : gpath := {| g_origin := ""; g_target := ""; g_elem := []; g_element := l |}.
-Definition s_mixed : list item :=
-  [upd 100 (Some (gp "" [el "a"])) (gel ["b"]) (TVInt 1);
-   upd 200 (Some (gp "" [el "a"])) (gp "" [el "c"]) (TVInt 2);
-   IUpd {| n_ts := 300; n_prefix := Some (gp "" [el "a"]); n_updates := []; n_deletes := [gel ["b"]] |}].
-
-Lemma mixed_encoding_refuted :
-  exists l, pipeline cfg1 [("dev1", s_mixed)] q [ASubscribe] = VLeaves l /\
-            ~ Permutation l (selects ["dev1"] (stamp_paths "dev1" (replay s_mixed))).
-Proof.
-  eexists. split; [vm_compute; reflexivity|]. vm_compute. intros Hp.
-  apply Permutation_nil in Hp. discriminate.
-Qed.
 End Refuted.
 
 (** * Soundness of the executable property checker K_P (PipelineCheck.kp_client) *)
